@@ -21,20 +21,24 @@ pub fn configs(prop: Prop, thorough: bool) -> Vec<(E1Cfg, Vec<Bound>)> {
     let mut v = Vec::new();
     match prop {
         Prop::C01 => {
-            let b_quick = vec![Bound::new(0, 0), Bound::new(1, 1), Bound::new(2, 1)];
-            let b_small = vec![Bound::new(0, 0), Bound::new(1, 1), Bound::new(2, 2)];
+            // quick bounds are sized so that every level completes (deterministic coverage);
+            // thorough adds the next level to each harness
+            let b11 = vec![Bound::new(0, 0), Bound::new(1, 1)];
+            let b21 = vec![Bound::new(0, 0), Bound::new(1, 1), Bound::new(2, 1)];
+            let b22 = vec![Bound::new(0, 0), Bound::new(1, 1), Bound::new(2, 2)];
+            let b_small = if thorough { vec![Bound::new(0, 0), Bound::new(1, 1), Bound::new(2, 2), Bound::new(3, 3)] } else { b22.clone() };
             let mut c = E1Cfg::base(prop, "c01-2app-1req-N1", 1, vec![vec![r4.clone()], vec![r4.clone()]]);
             c.reorder = true;
-            v.push((c, b_quick.clone()));
+            v.push((c, if thorough { b22.clone() } else { b21.clone() }));
             let mut c = E1Cfg::base(prop, "c01-2app-1req-N2", 2, vec![vec![r4.clone()], vec![w3.clone()]]);
             c.reorder = true;
-            v.push((c, b_quick.clone()));
+            v.push((c, if thorough { b21.clone() } else { b11.clone() }));
             let mut c = E1Cfg::base(prop, "c01-1app-2req-N1", 1, vec![vec![r4.clone(), w3.clone()]]);
             c.reorder = true;
             v.push((c, b_small.clone()));
             let mut c = E1Cfg::base(prop, "c01-multi+single-N2", 2, vec![vec![m2.clone()], vec![r4.clone()]]);
             c.reorder = true;
-            v.push((c, b_quick.clone()));
+            v.push((c, if thorough { b21.clone() } else { b11.clone() }));
             // view family: every length 0..=8 x every front-trim amount 0..=len+1 (sequential)
             for len in 0..=8u16 {
                 let reqs: Vec<Req> = (0..=(len as usize + 1)).map(|ct| Req::ReadTrim { len, ct }).collect();
@@ -62,20 +66,23 @@ pub fn configs(prop: Prop, thorough: bool) -> Vec<(E1Cfg, Vec<Bound>)> {
         }
         Prop::C02 => {
             let b_quick = vec![Bound::new(0, 0), Bound::new(1, 1), Bound::new(2, 1)];
+            let b11 = vec![Bound::new(0, 0), Bound::new(1, 1)];
+            // two preemptions or one preemption + one fault, but not three deviations
+            let b21t2 = vec![Bound::new(0, 0), Bound::new(1, 1), Bound { preempt: 2, env: 1, total: 2 }];
             let mut c = E1Cfg::base(prop, "c02-2app-N1-faults", 1, vec![vec![r4.clone()], vec![w3.clone()]]);
             c.send_faults = true;
             c.reorder = true;
             c.duplicates = true;
-            v.push((c, b_quick.clone()));
+            v.push((c, if thorough { b_quick.clone() } else { b21t2.clone() }));
             let mut c = E1Cfg::base(prop, "c02-2app-N2-faults", 2, vec![vec![r4.clone()], vec![m2.clone()]]);
             c.send_faults = true;
             c.reorder = true;
             c.duplicates = true;
-            v.push((c, vec![Bound::new(0, 0), Bound::new(1, 1), Bound::new(2, 0)]));
+            v.push((c, if thorough { b21t2.clone() } else { b11.clone() }));
             let mut c = E1Cfg::base(prop, "c02-1app-2req-N1-faults", 1, vec![vec![w3.clone(), r4.clone()]]);
             c.send_faults = true;
             c.duplicates = true;
-            v.push((c, b_quick.clone()));
+            v.push((c, if thorough { vec![Bound::new(0, 0), Bound::new(1, 1), Bound::new(2, 2), Bound::new(3, 2)] } else { b_quick.clone() }));
             if thorough {
                 let b3 = vec![Bound::new(0, 0), Bound::new(1, 1), Bound::new(2, 2), Bound::new(3, 2)];
                 let mut c = E1Cfg::base(prop, "c02-2app-N1-faults-b3", 1, vec![vec![r4.clone()], vec![w3.clone()]]);
@@ -101,7 +108,6 @@ pub fn configs(prop: Prop, thorough: bool) -> Vec<(E1Cfg, Vec<Bound>)> {
             let b11 = vec![Bound::new(0, 0), Bound::new(1, 1)];
             let t1 = vec![Bound::total(0), Bound::total(1)];
             let t2 = vec![Bound::total(0), Bound::total(1), Bound::total(2)];
-            let t3 = vec![Bound::total(0), Bound::total(1), Bound::total(2), Bound::total(3)];
             // (1) never answered / answered late, every retry policy: exact transmission count,
             // timeout error, byte-identical retransmissions, response wins over deadline
             for (name, retry, lose, bq, bt) in [
@@ -139,7 +145,7 @@ pub fn configs(prop: Prop, thorough: bool) -> Vec<(E1Cfg, Vec<Bound>)> {
                 c.clock = true;
                 c.lose_tags = vec![1];
                 c.retry = retry;
-                v.push((c, if thorough { t3.clone() } else { t2.clone() }));
+                v.push((c, if thorough { t2.clone() } else { t1.clone() }));
             }
             let mut c = E1Cfg::base(prop, "c06-2app-N2-loss-abandon", 2, vec![vec![r4.clone()], vec![w3.clone()]]);
             c.abandon = true;
@@ -173,12 +179,30 @@ fn run_prop(prop: Prop, id: &str, tier: &Tier, rule: &str) -> Result<i32, String
     let cfgs = configs(prop, tier.thorough);
     let mut described = Vec::new();
     for (cfg, bounds) in cfgs {
+        // experimentation aid: VX_ONLY=<label> VX_BOUNDS="p,e,t;p,e,t" runs one harness with other bounds
+        let mut bounds = bounds;
+        if let Ok(only) = std::env::var("VX_ONLY") {
+            if only != cfg.label {
+                continue;
+            }
+            if let Ok(bs) = std::env::var("VX_BOUNDS") {
+                bounds = bs
+                    .split(';')
+                    .map(|t| {
+                        let n: Vec<u32> = t.split(',').map(|x| x.trim().parse().unwrap()).collect();
+                        Bound { preempt: n[0], env: n[1], total: n[2] }
+                    })
+                    .collect();
+            }
+        }
         let h = E1Harness { cfg: cfg.clone() };
         described.push(json!(describe(&cfg)));
         let remaining = (budget - rep.t0.elapsed().as_secs_f64()).max(2.0);
         let lim = Limits {
             max_executions: u64::MAX,
-            max_wall: Duration::from_secs_f64(if bounds.len() > 1 { remaining } else { remaining.min(5.0) }),
+            // quick: every listed bound is sized to complete (deterministic coverage); the wall cap is
+            // only a safety net. thorough: the remaining budget is the cap and is reported when hit.
+            max_wall: Duration::from_secs_f64(if tier.thorough { remaining } else { 150.0 }),
             workers: crate::core::workers(),
         };
         let known = crate::report::Known::load();
